@@ -26,11 +26,14 @@ def run(ck):
     ck.rule("C16.R1", "rotation tables: step, rounding and file-name granularity agree per kind", floor=4)
     ck.rule("C16.R2", "one elected rotator; rotate iff now >= next_date; same steps on both write paths", floor=5)
     ck.rule("C16.R3", "log files are opened with append+create and never truncated", floor=1)
+    ck.rule("C16.R5", "rolling::Builder methods keep every other option (same-named field carry-over)", floor=4)
     ck.rule("C16.R4", "prune only before creating the next file, oldest first, only the appender's files", floor=3)
     r1(ck, F)
     r2(ck, F)
     r3(ck, F)
     r4(ck, F)
+    from rulekit.query import builder_carry_over
+    builder_carry_over(ck, F, "C16.R5", ("tracing_appender::rolling::builder::",))
 
 
 def kind_rows(F, name):
@@ -177,6 +180,12 @@ def r2(ck, F):
                 ok, why = False, "refresh_writer is not conditioned on should_rollover == Some"
             elif shared and not won:
                 ok, why = False, "on the shared path refresh_writer is not conditioned on having won advance_date's CAS: several threads could rotate at one boundary"
+            # the CAS winner is the only thread that will ever rotate at this boundary (next_date has already moved on):
+            # nothing else may stand between winning and rotating -- a lock that happens to be busy, a second time test
+            extra = [t for t, v in g if not (t.startswith("discr(should_rollover(") or t.startswith("advance_date(") or t in ("0", "1"))]
+            if ok and extra:
+                ok, why = False, ("the rotation is skipped under a further condition (%s) although the boundary was already advanced: no later write retries it, "
+                                  "so the whole period is written to the previous file" % "; ".join(x[:80] for x in extra))
             # the value given to advance_date is the one should_rollover returned
             t = b.term(adv[0])
             cur = b.origin(t["argv"][2])
